@@ -13,8 +13,8 @@ Model of the stabilizer interface of the gate library (import-free, executable):
   Primitives: `check_nr_bits` (omitted by `I`, see `Gen.conjNoArityCheck`) then the table row;
   `Kron`: `check_nr_bits`, `g0` on `ops[..n0]`, `g1` on `ops[n0..]`, signs xor-ed, `?` returns early;
   `Composite`: `check_nr_bits`, then for every sub-gate gather `ops[b]` (index panic = `oob`),
-  conjugate the copy, scatter it back through `zip`; `Loop`: `check_nr_bits`, then `nr_iterations`
-  times `body.conjugate(ops)`;
+  conjugate the copy, scatter it back through `zip`; `Loop`: `check_nr_bits`, then `NotAStabilizer`
+  unless `self.is_stabilizer()`, then `nr_iterations` times `body.conjugate(ops)`;
 * `opIsStab`, `isStabilizerCircuit`, `chooseRepr` — `CircuitOp::is_stabilizer`,
   `Circuit::is_stabilizer_circuit`, and the representation `execute_with_rng` creates.
 
@@ -127,6 +127,7 @@ def conjugateT (tbl : Table) (noCheck : List String) : GateTerm Q → List Pauli
     else conjOpsT tbl noCheck body ops false
   | .Loop _ iters _ n body, ops =>
     if ops.length ≠ n then .error (.invalidNrBits ops.length n)
+    else if !allStabT tbl body then .error .notAStabilizer      -- `if !self.is_stabilizer()`
     else iterConj (fun p =>
       if p.length ≠ n then .error (.invalidNrBits p.length n) else conjOpsT tbl noCheck body p false)
       iters ops false
